@@ -147,6 +147,31 @@ def register_block_to_file(reg):
     reg.add(c)
 
 
+def register_to_dat(reg):
+    """TimeSeries.to_dat (C04): the PRESTO .dat holds every sample of the series, once, as raw float32, and the .inf is made
+    from the header that describes exactly those samples. Header.make_inf (decimal text; C05-style formatting is compared by
+    the bounded stand-in) is assumed to record the sample count of the header it is called on."""
+    from pvc.contract import Real
+    TS = "sigpyproc/timeseries.py::"
+    hdr = header_obj(None, {"tsamp": Real(), "tstart": Real(), "dm": Real(), "inf_nsamples": Int(), "inf_tsamp": Real()})
+    c = Contract(H + "Header.make_inf", props=["C04"], trusted=True,
+                 trusted_reason="text formatting of the .inf file (bounded stand-in c04.py reads it back); here: it describes "
+                                "the header it is called on (ghost fields inf_nsamples / inf_tsamp)",
+                 params={"self": hdr, "outfile": Opaque()}, modifies=["self.inf_nsamples", "self.inf_tsamp"], ret=Opaque())
+    c.ensure("describes this header", "self.inf_nsamples == self.nsamples and self.inf_tsamp == self.tsamp")
+    reg.add(c)
+    ts = Obj("TimeSeries", file="sigpyproc/timeseries.py", fields={"_data": Arr("real", "f4"), "_header": hdr})
+    c = Contract(TS + "TimeSeries.to_dat", props=["C04"], params={"self": ts, "basename": Opaque()},
+                 requires=["len(self._data) == self._header.nsamples"], modifies=["self._header"], ret=Opaque())
+    c.ensure("one raw file", "named_out_count() == 1 and named_out().hdr_writes == 0 and named_out().ebits == 32")
+    c.ensure("every sample written once, in order",
+             "len(named_out().elems) == len(self._data) and "
+             "forall(i, 0, len(self._data), named_out().elems[i] == self._data[i])")
+    c.ensure(".inf describes the samples written", "self._header.inf_nsamples == len(self._data) and "
+                                                   "self._header.inf_tsamp == self._header.tsamp")
+    reg.add(c)
+
+
 _r_w = register
 
 
@@ -154,3 +179,4 @@ def register(reg):  # noqa: F811
     _r_w(reg)
     register_to_tim(reg)
     register_block_to_file(reg)
+    register_to_dat(reg)
